@@ -13,7 +13,8 @@ VARIABLE hist
 gvars == <<vars, hist>>
 
 GInit == Init /\ hist = <<>>
-GNext == Next /\ hist' = Append(hist, out')
+\* Refuse / SkipBody are the implementation's choice, not the script's: the "return" step says when it is allowed
+GNext == Scripted /\ bend' # "skipped" /\ hist' = Append(hist, out')
 GSpec == GInit /\ [][GNext]_gvars
 
 Emit == (phase = "idle" /\ ncalls = MaxCalls) => PrintT(ToJson(hist))
